@@ -1,5 +1,7 @@
 import AITB.Model.Proto
 import AITB.Model.Factored
+import Driver.C14b
+import AITB.Model.FactoredAlg
 open AITB AITB.Factored
 
 namespace DrvC14
@@ -62,6 +64,38 @@ def pie : P String := do
   let v := v.failIf (implSeq != expect) s!"pie wrong_index_set {implSeq}"
   return v.render
 
+/-- insert `k` into an ascending key list (no duplicate) -/
+def insKey (k : Nat) : List Nat → List Nat
+  | [] => [k]
+  | a :: r => if k < a then k :: a :: r else if k = a then a :: r else a :: insKey k r
+
+/-- `piek sp keys fixed val missing | seq` : PartialIndexEnumerator(F, factors, fixedFactor, val, missing) -/
+def piek : P String := do
+  let sp ← P.nats; let keys ← P.nats; let fixed ← P.nat; let val ← P.nat; let missing ← P.bool; P.bar
+  let implSeq ← P.nats; P.eof
+  let keys' := insKey fixed keys
+  let dims := sel keys' sp
+  let pos := (keys'.takeWhile (· < fixed)).length
+  let mseq := pieAll (pieInitPK sp keys fixed val missing) (space dims + 2)
+  let expect := (List.range (space dims)).filter (fun id => (toFactors dims id).getD pos 0 == val)
+  let v : Verdict := { tag := "piek" }
+  let v := v.diffIf (mseq != implSeq) s!"PartialIndexEnumerator(keys) seq model={mseq} impl={implSeq}"
+  let v := v.failIf (implSeq != expect) s!"PartialIndexEnumerator(keys) wrong_index_set {implSeq}"
+  return v.render
+
+/-- `tipf sp keys vals | implIndex implExpanded` : toIndex(space, PartialFactors) and toFactors(F, pf) -/
+def tipf : P String := do
+  let sp ← P.nats; let keys ← P.nats; let vals ← P.nats; P.bar
+  let implI ← P.nat; let implE ← P.nats; P.eof
+  let v : Verdict := { tag := "tipf" }
+  let v := v.diffIf (toIndexPF sp keys vals != implI) s!"toIndex(space,PartialFactors) model={toIndexPF sp keys vals} impl={implI}"
+  let v := v.diffIf (expandFrom 0 sp keys vals != implE) s!"toFactors(F,PartialFactors) model={expandFrom 0 sp keys vals} impl={implE}"
+  -- property: the zero-filled expansion carries exactly the named values, and the partial index is its flat index
+  let specE := (List.range sp.length).map (fun p => (lookup p (keys.zip vals)).getD 0)
+  let v := v.failIf (implE != specE) s!"toFactors(F,PartialFactors) wrong_expansion {implE}"
+  let v := v.failIf (implI != toIndex sp implE) s!"toIndex(space,PartialFactors) not_flat_index_of_expansion {implI}"
+  return v.render
+
 def pairs : P (List (Nat × Nat)) := do
   let k ← P.nats; let v ← P.nats
   if k.length != v.length then P.fail else pure (k.zip v)
@@ -82,6 +116,62 @@ def merge : P String := do
   let v := v.failIf (im != specMatch) s!"match wrong_answer {im}"
   return v.render
 
+/-- `misc sp pf full other f | removed matchFP matchKeys joinLen` : removeFactor, match(Factors, pf), match(keys, lhs, rhs), join -/
+def misc : P String := do
+  let sp ← P.nats; let l ← pairs; let full ← P.nats; let other ← P.nats; let f ← P.nat; P.bar
+  let rk ← P.nats; let rv ← P.nats; let m1 ← P.bool; let m2 ← P.bool; let jn ← P.nats; P.eof
+  let v : Verdict := { tag := if sp.length ≤ 1 then "trivial" else "misc" }
+  let v := v.diffIf (removeFactor f l != rk.zip rv || rk.length != rv.length) s!"removeFactor model={removeFactor f l} impl={rk.zip rv}"
+  let v := v.failIf ((rk.zip rv) != l.filter (fun kv => kv.1 != f)) s!"removeFactor wrong_result {rk}"
+  let spec1 := l.all (fun kv => full.getD kv.1 0 == kv.2)
+  let v := v.failIf (m1 != spec1) s!"match(Factors,PartialFactors) wrong_answer {m1}"
+  let spec2 := l.all (fun kv => full.getD kv.1 0 == other.getD kv.1 0)
+  let v := v.failIf (m2 != spec2) s!"match(keys,Factors,Factors) wrong_answer {m2}"
+  let v := v.failIf (jn != full ++ other) s!"join wrong_concatenation"
+  return v.render
+
+/-- `skipidx sp keys full toModify | first skipMult implIndex` : toIndexPartialAndSkip -/
+def skipidx : P String := do
+  let sp ← P.nats; let keys ← P.nats; let full ← P.nats; let tm ← P.nat; P.bar
+  let first ← P.nat; let sm ← P.nat; let idx ← P.nat; P.eof
+  let m := toIndexPartialAndSkip keys sp full tm
+  let v : Verdict := { tag := "skipidx" }
+  let v := v.diffIf (m != (first, sm)) s!"toIndexPartialAndSkip model={m.1},{m.2} impl={first},{sm}"
+  -- property: index = first + skipMultiplier * f[toModify]; first is the index of f with f[toModify] := 0
+  let v := v.failIf (idx != toIndexPartial keys sp full) s!"toIndexPartial wrong_index {idx}"
+  let v := v.failIf (first + sm * (if keys.contains tm then full.getD tm 0 else 0) != idx) s!"toIndexPartialAndSkip not_decomposition_of_index {first} {sm}"
+  let v := v.failIf (first != toIndexPartial keys sp (full.set tm 0)) s!"toIndexPartialAndSkip first_not_index_with_zeroed_factor {first}"
+  return v.render
+
+def natPairs : P (List (Nat × Nat)) := do
+  let a ← P.nats; let b ← P.nats
+  if a.length != b.length then P.fail else pure (a.zip b)
+
+/-- `misc2 l r S | mergedKeys matches mergedVals joinKeys joinVals tpfKeys` : merge(PartialKeys, matches), merge(PartialValues),
+    join(S, pf, pf), toPartialFactors -/
+def misc2 : P String := do
+  let l ← pairs; let r ← pairs; let bigS ← P.nat; let full ← P.nats; P.bar
+  let mk ← P.nats; let mm ← natPairs; let mv ← P.nats; let jk ← P.nats; let jv ← P.nats; let tk ← P.nats; let tv ← P.nats
+  let mtm ← P.bool; let mt4 ← P.bool; P.eof
+  let lk := l.map (·.1); let rk := r.map (·.1)
+  let v : Verdict := { tag := "misc2" }
+  let mp := mergePF l r
+  let v := v.diffIf (AITB.Factored.mergeKeys lk rk != mk) s!"merge(PartialKeys) model={AITB.Factored.mergeKeys lk rk} impl={mk}"
+  let v := v.diffIf (mergeMatches 0 0 lk rk != mm) s!"merge(PartialKeys,matches) model={mergeMatches 0 0 lk rk} impl={mm}"
+  let v := v.diffIf (mp.map (·.2) != mv) s!"merge(PartialValues) model={mp.map (·.2)} impl={mv}"
+  -- property: keys = ascending union; matches = positions of the common keys; values as merge(PartialFactors)
+  let union := (List.range (lk.foldl max 0 + rk.foldl max 0 + 1)).filter (fun k => lk.contains k || rk.contains k)
+  let v := v.failIf (mk != union) s!"merge(PartialKeys) not_sorted_union {mk}"
+  let v := v.failIf (!(mm.all (fun ij => lk.getD ij.1 0 == rk.getD ij.2 0 && decide (ij.1 < lk.length) && decide (ij.2 < rk.length))) || mm.length != (lk.filter rk.contains).length) s!"merge(PartialKeys,matches) wrong_matches {mm}"
+  let v := v.failIf (!(mk.zip mv).all (fun kv => some kv.2 == (match lookup kv.1 r with | some x => some x | none => lookup kv.1 l))) s!"merge(PartialValues) wrong_values {mv}"
+  let v := v.failIf (jk != lk ++ rk.map (· + bigS) || jv != l.map (·.2) ++ r.map (·.2)) s!"join(S,PartialFactors) wrong_join {jk}"
+  let v := v.failIf (tk != List.range full.length || tv != full) s!"toPartialFactors wrong {tk}"
+  let agree := (lk ++ rk).all (fun k => match lookup k l, lookup k r with | some a, some b => a == b | _, _ => true)
+  let v := v.diffIf (matchPF l r != mt4) s!"match(keys,values,keys,values) model={matchPF l r} impl={mt4}"
+  let v := v.failIf (mtm != agree) s!"match(matches,Factors,Factors) wrong_answer {mtm}"
+  let v := v.failIf (mt4 != agree) s!"match(keys,values,keys,values) wrong_answer {mt4}"
+  return v.render
+
 def handle (toks : List String) : String :=
   let r := match toks with
     | "rt" :: rest => P.run rt rest
@@ -89,7 +179,12 @@ def handle (toks : List String) : String :=
     | "enum" :: rest => P.run enum rest
     | "pie" :: rest => P.run pie rest
     | "merge" :: rest => P.run merge rest
-    | _ => none
+    | "piek" :: rest => P.run piek rest
+    | "tipf" :: rest => P.run tipf rest
+    | "misc" :: rest => P.run misc rest
+    | "skipidx" :: rest => P.run skipidx rest
+    | "misc2" :: rest => P.run misc2 rest
+    | _ => DrvC14b.handle toks
   r.getD "bad-op"
 
 end DrvC14
